@@ -164,4 +164,41 @@ theorem date_is_calendar_date (ts rest : List Item) (d : Ymd) (h : dateLiteral t
     exact hc
   · simp [P.fail] at h
 
+
+/-! ### underscores separate digits, they are not digits -/
+
+theorem filter_underscore {p : Char → Bool} (hp : p '_' = false) (cs : List Char) :
+    (cs.filter (· != '_')).filter p = cs.filter p := by
+  rw [List.filter_filter]
+  congr 1
+  funext c
+  by_cases h : c = '_'
+  · subst h; simp [hp]
+  · simp [h]
+
+/-- A fixed point text (the amount of a duration, the seconds of a time of day) and the same text with
+underscores inserted or removed anywhere — before or after the point — are read alike: an underscore never
+shifts or scales a digit. -/
+theorem fixedPoint_underscores_ignored (a b : List Char) (h : a.filter (· != '_') = b.filter (· != '_')) :
+    Parse.fixedPointParse a = Parse.fixedPointParse b := by
+  have key : ∀ x : List Char, Parse.fixedPointParse x = Parse.fixedPointParse (x.filter (· != '_')) := by
+    intro x
+    unfold Parse.fixedPointParse
+    simp only
+    rw [filter_underscore (by decide)]
+  rw [key a, key b, h]
+
+/-- the same for unsigned decimal integers -/
+theorem integer_underscores_ignored (a b : List Char) (h : a.filter (· != '_') = b.filter (· != '_')) :
+    Parse.integerNew a = Parse.integerNew b := by
+  have key : ∀ x : List Char, Parse.integerNew x = Parse.integerNew (x.filter (· != '_')) := by
+    intro x
+    unfold Parse.integerNew
+    rw [filter_underscore (by decide)]
+  rw [key a, key b, h]
+
+/-- non-vacuity: `1.000_5` is read as `1.0005` -/
+example : Parse.fixedPointParse "1.000_5".toList = Parse.fixedPointParse "1.0005".toList :=
+  fixedPoint_underscores_ignored _ _ (by decide)
+
 end C09
